@@ -335,6 +335,14 @@ def generate(rng, tier, boost):
     big = tier == 'thorough' or boost
     cases = []
     cases += exhaustive(3 if big else 2)
+    # a computation on an object, one operation of the alphabet, the same computation again
+    init = [[1, [1, [[b'\x22' * 32, 0, b'', 0xffffffff], [b'\x23' * 32, 1, b'', 7]], [[1, b'\x51'], [2, b'\x52']], [], 0]]]
+    for a in reduced_alphabet():
+        o = a(1)
+        if o is None:
+            continue
+        for probe in ([16, [0], b'\x76\xac', 0, 0x01], [16, [0], b'\x76\xac', 1, 0x83], [17, [0], b'', 0, 0x01], [12, [0]], [13, [0]]):
+            cases.append((901, [init, [probe, o, probe]]))
     n_short, n_mid, n_long = (1500, 1200, 40) if big else (120, 20, 0)
     for _ in range(n_short):
         cases.append((901, rand_history(rng, rng.randrange(1, 7))))
